@@ -7,8 +7,8 @@ import (
 	"github.com/KevoDB/kevo/pkg/zzverif/vsym"
 )
 
-// VerifWALBoundaries: one put whose value length sits around the fragmentation boundary.
-func VerifWALBoundaries() {
+// VerifC09_RoundTripBoundaries: one put whose value length sits around the fragmentation boundary.
+func VerifC09_RoundTripBoundaries() {
 	cfg := &config.Config{WALSyncMode: config.SyncImmediate}
 	w, err := NewWAL(cfg, vsym.Dir()+"/wal")
 	vsym.Assert(err == nil, "NewWAL failed")
